@@ -169,6 +169,7 @@ package xsync
 //@   let o = old(view(m))[key]
 //@   let called = !(loadIfExists && present(o))
 //@   onlock {C03} quiescent: mapInv(m) && mapRIc(m) && view(m) == tview[tab(m)] && hdrStable(table)
+//@   onrelease {C03} stable: mapInv(m) && tblShape(tab(m)) && pow2(m.minTableLen)
 //@   loop compute_attempt: invariant {tintf} shape: mapInv(m) && tblShape(tab(m)) && pow2(m.minTableLen)
 //@   loop compute_attempt: invariant {C05} noinvocation: ncb(valueFn) == 0 && nheld() == 0
 //@   loop compute_attempt: invariant {C11,C03,seq} unchanged: mapInv(m) && mapRI(m) && view(m) == old(view(m)) && called
@@ -315,6 +316,7 @@ package xsync
 //@   let o = old(view(m))[key]
 //@   let called = !(loadIfExists && present(o))
 //@   onlock {C04} quiescent: mapInv(m) && mapOfRIc(m) && view(m) == tviewOf[tabOf(m)] && hdrStable(table) && m.hasher == old(m.hasher)
+//@   onrelease {C04} stable: mapInv(m) && m.hasher != nil && tblShapeOf(tabOf(m)) && pow2(m.minTableLen)
 //@   loop compute_attempt: invariant {tintf} shape: mapInv(m) && m.hasher != nil && tblShapeOf(tabOf(m)) && pow2(m.minTableLen)
 //@   loop compute_attempt: invariant {C05} noinvocation: ncb(valueFn) == 0 && nheld() == 0
 //@   loop compute_attempt: invariant {C11,C04,seq} unchanged: mapInv(m) && mapOfRI(m) && view(m) == old(view(m)) && called
